@@ -287,7 +287,7 @@ Inductive call :=
 (* fdFilestatSetTimesFn falls back to f.FS.Utimens(f.Name, ..) when File.Utimens answers EPERM/ENOSYS.
    false = the current tree: the fallback does not check that the entry has a file system (nil for stdio and sockets);
    set to true once the code keeps the errno when f.FS == nil (then [C15_no_host_panic] has no exception left). *)
-Definition set_times_checks_fs : bool := false.
+Definition set_times_checks_fs : bool := true.
 
 Definition fd_seek (e : env) (m : mem) (h : host) (fd res_ : Z) : res :=
   with_fd e (i32 fd) (fun x =>
